@@ -516,7 +516,7 @@ func c06Files(seed int64, thorough bool) []func() (c06File, bool) {
 		})
 	}
 	// profiles and preceding structures of several MiB (built when the case runs, not when it is listed)
-	for i := 0; i < 9; i++ {
+	for i := 0; i < 9 && !c06SkipBig; i++ {
 		i := i
 		add(func(r *core.RNG) (c06File, bool) {
 			fs := bigFiles(seed)
@@ -569,10 +569,21 @@ func c06Witness(r *core.Run, f c06File, loader string) c06Case {
 	return cs
 }
 
+var c06SkipBig bool // set while runC06 lists the generator again under derived seeds
+
 func runC06(r *core.Run) {
 	r.Rule = "profiles of boundary sizes (1 B .. 3 MiB; 16 MiB and 255 full chunks in thorough; zeros / text / incompressible) embedded as PNG iCCP (all zlib levels, name lengths 1/2/78/79, three placements), JPEG APP2 (1..255 chunks, every permutation up to 5 chunks, seeded beyond, before/after SOF, interleaved) and WebP VP8X+ICCP (odd/even), plus every damage class and profile-less files; each through the specific and the auto loader; non-trivial = distinct (format, size class, order/placement class, damage class) with size > 4096 or >= 2 chunks"
 	r.Assumptions = []string{"a JPEG whose first-arriving ICC chunk after SOF says '1 of 1' is a self-consistent complete profile; later contradictory chunks lie beyond what the extractor needs to read (C18) and such damage variants are not generated"}
 	gens := c06Files(r.Seed, r.Thorough())
+	if r.Thorough() {
+		// the whole generator again under forty derived seeds (other names, placements, orders,
+		// damage positions, payload dressings); the multi-MiB files only once
+		c06SkipBig = true
+		for k := int64(1); k <= 40; k++ {
+			gens = append(gens, c06Files(r.Seed*1000+k, false)...)
+		}
+		c06SkipBig = false
+	}
 	classes := map[string]int64{}
 	type out struct {
 		class string
